@@ -85,6 +85,8 @@ class C16(PureCheck):
         # characters in order, single spaces between, under the one formatting (FmtJudge.JudgeLinesplitLong)
         for (unit, reps, tail, c) in (("ab ", 1365, "hello world", 20), ("ab ", 1365, "hello world", 7), ("x", 5000, "", 1000), ("x", 4097, " y", 4096),
                                       ("abc  de\n", 911, "fghij", 10), ("ab ", 2730, "hello world", 12), ("word ", 13107, "xy", 64)):
+            if reps > 10000 and tier != "thorough":
+                continue
             for k_ in ("s", "f"):
                 yield {"op": "linesplitlong", "kind": k_, "text": enc.enc_text(unit), "reps": reps, "tail": enc.enc_text(tail), "cols": c, "atts": list(ATTS[1])}
         k = 0
